@@ -62,7 +62,8 @@ impl DcpsDomainParticipant {
                 || topic.qos.destination_order != qos.destination_order
                 || topic.qos.history != qos.history
                 || topic.qos.resource_limits != qos.resource_limits
-                || topic.qos.ownership != qos.ownership)
+                || topic.qos.ownership != qos.ownership
+                || topic.qos.representation != qos.representation)
         {
             return Err(DdsError::ImmutablePolicy);
         }
